@@ -46,6 +46,7 @@ type handP struct {
 	Steps   int    `json:"steps"`
 	Witness string `json:"witness,omitempty"`
 	Ops     []HOp  `json:"ops,omitempty"`
+	Giant   int64  `json:"giant,omitempty"` // sparse file of this length (more than 31 bits)
 }
 
 func handCases(prop, tier string, seed uint64) []Case {
@@ -85,6 +86,16 @@ func handCases(prop, tier string, seed uint64) []Case {
 		pb, _ := json.Marshal(handP{Cfg: cfgH, Init: sz, Flag: fl, Ops: ops})
 		cases = append(cases, Case{ID: fmt.Sprintf("c14-huge-%d", i), Seed: subSeed(seed, prop, "huge", fmt.Sprint(i)), Kind: "random", P: pb})
 	}
+	// a file whose length needs more than 31 bits (written sparsely: head, seek, tail), judged without holding its bytes
+	giantN := 1
+	if tier == "thorough" {
+		giantN = 3
+	}
+	for i := 0; i < giantN; i++ {
+		cfgG := []Cfg{{Comp: "zstandard", Level: "fastest", RS: 20, WC: "file"}, plainF, {Comp: "lz4", Level: "fastest", Enc: "age", RS: 64, WC: "file"}}[i%3]
+		pb, _ := json.Marshal(handP{Cfg: cfgG, Init: -1, Witness: "", Giant: int64(1)<<31 + int64(i)*(int64(1)<<31) + int64(i*513)})
+		cases = append(cases, Case{ID: fmt.Sprintf("c14-giant-%d", i), Seed: subSeed(seed, prop, "giant", fmt.Sprint(i)), Kind: "random", P: pb})
+	}
 	inits := []int{-1, 0, 1, 10, 511, 512, 513, 2000, 10241}
 	for i := 0; i < n; i++ {
 		cfg := cfgs[i%len(cfgs)]
@@ -119,9 +130,122 @@ func handCases(prop, tier string, seed uint64) []Case {
 	return cases
 }
 
+// giantRun: head + seek + tail leaves a file of p.Giant bytes; sizes, offsets and the bytes at both ends and in the middle must be
+// those of a byte array, on the handle, after close on a fresh open, and after a rebuild of the index from the tape.
+func giantRun(p handP, c Case, w *Worker) (res Result) {
+	cfg := p.Cfg
+	res.setAdd("configs", cfg.String())
+	stepBudget.Store(60 * stepBudgetDefault)
+	defer stepBudget.Store(stepBudgetDefault)
+	dir := w.NewDir("c14g")
+	rig, err := NewRig(dir, cfg)
+	if err != nil {
+		res.Verdict, res.Msg = "inconclusive", "rig: "+err.Error()
+		return
+	}
+	defer func() { rig.Close() }()
+	if err := rig.Init(); err != nil {
+		res.violate("c14|giant|init", "Initialize: "+err.Error())
+		return
+	}
+	size := p.Giant
+	viol := func(sig, format string, a ...any) {
+		res.violate("c14|giant|"+sig, fmt.Sprintf("[%s] file of %d bytes (head, Seek(%d), tail): ", cfg, size, size-4)+fmt.Sprintf(format, a...))
+	}
+	const name = "/giant"
+	h, err := rig.FS.OpenFile(name, os.O_RDWR|os.O_CREATE, 0o644)
+	if err != nil {
+		viol("open", "OpenFile: %v", err)
+		return
+	}
+	if n, err := h.Write([]byte("head")); err != nil || n != 4 {
+		viol("write", "Write(head) = %d, %v", n, err)
+		return
+	}
+	if off, err := h.Seek(size-4, io.SeekStart); err != nil || off != size-4 {
+		viol("seek", "Seek(%d, start) = %d, %v", size-4, off, err)
+		return
+	}
+	if n, err := h.Write([]byte("tail")); err != nil || n != 4 {
+		viol("write", "Write(tail) = %d, %v", n, err)
+		return
+	}
+	if off, err := h.Seek(0, io.SeekCurrent); err != nil || off != size {
+		viol("seek", "Seek(0, current) after the tail = %d, %v; a byte array is at %d", off, err, size)
+		return
+	}
+	if fi, err := h.Stat(); err != nil || fi.Size() != size {
+		viol("stat", "handle Stat: size %d, err %v", sizeOfInfo(fi), err)
+		return
+	}
+	if err := h.Close(); err != nil {
+		viol("close", "Close: %v", err)
+		return
+	}
+	rig.LocksSettled()
+	res.count("giant_files", 1)
+	check := func(rg *Rig, phase string) bool {
+		fi, err := rg.FS.Stat(name)
+		if err != nil || fi.Size() != size {
+			viol(phase+"|stat", "%s: Stat size %d, err %v", phase, sizeOfInfo(fi), err)
+			return false
+		}
+		f, err := rg.FS.Open(name)
+		if err != nil {
+			viol(phase+"|open", "%s: Open: %v", phase, err)
+			return false
+		}
+		defer func() { _ = f.Close(); rg.LocksSettled() }()
+		buf := make([]byte, 4)
+		for _, at := range []struct {
+			off  int64
+			want string
+		}{{0, "head"}, {1<<20 + 3, "\x00\x00\x00\x00"}, {size - 4, "tail"}} {
+			n, err := f.ReadAt(buf, at.off)
+			if n != 4 || (err != nil && err != io.EOF) || string(buf) != at.want {
+				viol(phase+"|readat", "%s: ReadAt(4, %d) = %d, %v, %q; a byte array has %q there", phase, at.off, n, err, buf[:n], at.want)
+				return false
+			}
+			res.count("giant_reads", 1)
+		}
+		if off, err := f.Seek(0, io.SeekEnd); err != nil || off != size {
+			viol(phase+"|seekend", "%s: Seek(0, end) = %d, %v", phase, off, err)
+			return false
+		}
+		return true
+	}
+	if !check(rig, "fresh open") {
+		return
+	}
+	// after a rebuild of the index from the tape
+	rig.LocksSettled()
+	rig.Close()
+	_ = os.Remove(rig.DB)
+	nr, err := NewRig(dir, cfg)
+	if err != nil {
+		res.Verdict, res.Msg = "inconclusive", "rig: "+err.Error()
+		return
+	}
+	rig = nr
+	if err := rig.Init(); err != nil {
+		viol("rebuild", "opening the tape with the index absent: %v", err)
+		return
+	}
+	if !check(rig, "after rebuild") {
+		return
+	}
+	res.NonTrivial = true
+	res.Key = c.ID
+	res.Sample = map[string]any{"cfg": cfg.String(), "size": size}
+	return
+}
+
 func handRun(prop, tier string, c Case, w *Worker) (res Result) {
 	var p handP
 	_ = json.Unmarshal(c.P, &p)
+	if p.Giant > 0 {
+		return giantRun(p, c, w)
+	}
 	kind := "random"
 	if p.Witness != "" {
 		kind = "witness:" + p.Witness
